@@ -12,7 +12,8 @@ TABLES = [("space", "semantic_p3/s2space_p3.bundle*"), ("status", "semantic_p3/s
 
 
 def family(tier="thorough"):
-    return [p for p in progs.family_val() if p.get("exact")] + progs.family_val_ctl(3 if tier == "quick" else 4)
+    return [p for p in progs.family_val() if p.get("exact")] + progs.family_val_ctl(3 if tier == "quick" else 4) + \
+        [w for w in progs.val_witnesses_round2() if w["known"].startswith("C09")]       # witnesses of open findings (matched by fingerprint)
 
 
 def run(tier):
